@@ -8,7 +8,15 @@
    valid layout, reading any stream of cfb_write c l gives its content (C13_layout_independent),
    hence two containers holding the same stream read the same; the table-level `_partial`
    statements and the byte-level round trips of each table are kept; (4) totality of Cfb::new and
-   get_stream on ANY input (for C06). *)
+   get_stream on ANY input (for C06); (5) names unique per storage only (MS-CFB) and Excel's
+   "Workbook preferred, Book as fallback": the entry the flat scan of Cfb::get_stream reaches is
+   the one in the lowest directory slot among the objects carrying the name
+   (C13_find_dir_first); a stream is read back as soon as no object of the same name sits in a
+   lower slot (C13_layout_independent_first), always when names are distinct over the whole file
+   (C13_layout_independent); Xls::parse_workbook's two lookups read the root storage's Workbook,
+   else its Book, in any directory order (C13_workbook_stream_preferred, _unique, _known), EXCEPT
+   in known class 2 (an object of the same name of another storage in a lower slot:
+   C13_refuted_shadowed_workbook, confirmed on the real code). *)
 From Calamine Require Import Prelude Utf16 Cfb Cfb_proofs.
 Open Scope N_scope.
 
@@ -61,14 +69,66 @@ Proof. exact mini_sector_in_root_chain. Qed.
 
 (* ---------------------------------------------------------------- (3) layout independence *)
 (* through the bytes: any fuel from fuel_for l = 1 + number of DIFAT sectors on *)
-Theorem C13_layout_independent : forall c l fuel, valid_layout c l -> (fuel_for l <= fuel)%nat ->
+(* valid_layout now asks for names unique PER STORAGE only (hier_okb); with names distinct over
+   the whole file (names_unique) every stream is read back, whatever the layout *)
+Theorem C13_layout_independent : forall c l fuel, valid_layout c l -> names_unique c ->
+  (fuel_for l <= fuel)%nat ->
   forall n b, In (n, b) (c_streams c) -> cfb_get_stream fuel (cfb_write c l) n = Ok b.
 Proof. exact layout_independent. Qed.
 
 Theorem C13_same_streams_same_read : forall c1 l1 c2 l2 n b,
-  valid_layout c1 l1 -> valid_layout c2 l2 -> In (n, b) (c_streams c1) -> In (n, b) (c_streams c2) ->
+  valid_layout c1 l1 -> valid_layout c2 l2 -> names_unique c1 -> names_unique c2 ->
+  In (n, b) (c_streams c1) -> In (n, b) (c_streams c2) ->
   cfb_get_stream (fuel_for l1) (cfb_write c1 l1) n = cfb_get_stream (fuel_for l2) (cfb_write c2 l2) n.
 Proof. exact same_streams_same_read. Qed.
+
+(* ---------------------------------------------------------------- (5) duplicate names (audit G8) *)
+(* what Cfb::get_stream / has_directory reach on a written container, names unique per storage
+   only: the entry in the LOWEST directory slot among the objects (storages and streams, of any
+   storage) that carry the name; first_slot computes it from the container and the layout *)
+Theorem C13_find_dir_first : forall c l n, valid_layout c l -> n <> [] -> n <> ROOT_NAME ->
+  find_dir n (parsed_dirs c l) =
+  match first_slot c l n with
+  | Some s => Some (dirent_of_item (dir_item c l s))
+  | None => None
+  end.
+Proof. exact find_dir_first. Qed.
+
+(* the precondition of the flat lookup, stated exactly: the k-th stream is read back, through the
+   bytes, in every valid layout in which no object of the same name sits in a lower slot *)
+Theorem C13_layout_independent_first : forall c l fuel, valid_layout c l -> (fuel_for l <= fuel)%nat ->
+  forall k n b s, nth_error (c_streams c) k = Some (n, b) -> stream_slot c l k = Some s ->
+  first_slot c l n = Some s ->
+  cfb_get_stream fuel (cfb_write c l) n = Ok b.
+Proof. exact layout_independent_first. Qed.
+
+(* Xls::parse_workbook: get_stream("Workbook") or else get_stream("Book").  Whatever slots the
+   entries sit in (Book before or after Workbook in the directory array), the bytes parsed are
+   Workbook's when the lookup of that name ends on that stream; with no object named Workbook,
+   Book's *)
+Theorem C13_workbook_stream_preferred : forall c l fuel, valid_layout c l -> (fuel_for l <= fuel)%nat ->
+  (forall k b s, nth_error (c_streams c) k = Some (WORKBOOK, b) -> stream_slot c l k = Some s ->
+     first_slot c l WORKBOOK = Some s -> xls_workbook_stream fuel (cfb_write c l) = Ok b) /\
+  (forall k b s, first_slot c l WORKBOOK = None ->
+     nth_error (c_streams c) k = Some (BOOK, b) -> stream_slot c l k = Some s ->
+     first_slot c l BOOK = Some s -> xls_workbook_stream fuel (cfb_write c l) = Ok b).
+Proof. exact workbook_stream_preferred. Qed.
+
+(* names distinct over the whole file: a container holding both streams (a dual-format file) reads
+   Workbook in every valid layout; one holding only Book reads Book *)
+Theorem C13_workbook_stream_preferred_unique : forall c l fuel, valid_layout c l -> names_unique c ->
+  (fuel_for l <= fuel)%nat ->
+  (forall bw, In (WORKBOOK, bw) (c_streams c) -> xls_workbook_stream fuel (cfb_write c l) = Ok bw) /\
+  (forall bb, ~ In WORKBOOK (all_names c) -> In (BOOK, bb) (c_streams c) ->
+     xls_workbook_stream fuel (cfb_write c l) = Ok bb).
+Proof. exact workbook_stream_preferred_unique. Qed.
+
+(* any hierarchy: outside known class 2 the bytes parsed are those of the ROOT storage's Workbook
+   stream, else of its Book stream (spec_workbook), in every valid layout *)
+Theorem C13_workbook_stream_known : forall c l fuel k b, valid_layout c l -> (fuel_for l <= fuel)%nat ->
+  spec_workbook c = Some (k, b) -> known_C13 c l = None ->
+  xls_workbook_stream fuel (cfb_write c l) = Ok b.
+Proof. exact workbook_stream_known. Qed.
 
 (* interface for C20: the written file opens and every storage / stream name is the name of an
    entry of the directory array (has_directory answers true) *)
@@ -84,7 +144,7 @@ Theorem C13_cfb_new_written : forall c l fuel, valid_layout c l -> (fuel_for l <
 Proof. exact cfb_new_written. Qed.
 
 (* the table-level statements (kept) *)
-Theorem C13_layout_independent_partial : forall c l, valid_layout c l ->
+Theorem C13_layout_independent_partial : forall c l, valid_layout c l -> names_unique c ->
   forall n b, In (n, b) (c_streams c) ->
   forall ms r, Inv (c_ss c) (body_bytes c l) ms r ->
   exists c' r', get_stream (parsed_cfb c l ms) n r = Ok (b, c', r').
@@ -95,7 +155,8 @@ Theorem C13_has_directory_partial : forall c l ms, valid_layout c l ->
 Proof. exact has_directory_partial. Qed.
 
 Theorem C13_same_streams_same_read_partial : forall c1 l1 c2 l2 n b,
-  valid_layout c1 l1 -> valid_layout c2 l2 -> In (n, b) (c_streams c1) -> In (n, b) (c_streams c2) ->
+  valid_layout c1 l1 -> valid_layout c2 l2 -> names_unique c1 -> names_unique c2 ->
+  In (n, b) (c_streams c1) -> In (n, b) (c_streams c2) ->
   forall ms1 r1 ms2 r2, Inv (c_ss c1) (body_bytes c1 l1) ms1 r1 -> Inv (c_ss c2) (body_bytes c2 l2) ms2 r2 ->
   exists x c1' r1' c2' r2',
     get_stream (parsed_cfb c1 l1 ms1) n r1 = Ok (x, c1', r1') /\
@@ -188,23 +249,28 @@ Definition ex_small : list N := map (fun i => N.of_nat i mod 251) (seq 0 100).
 Definition ex_big : list N := map (fun i => (N.of_nat i * 7 + 3) mod 256) (seq 0 5000).
 Definition ex_c (ss : N) : container :=
   {| c_ss := ss; c_storages := [[86; 66; 65]];
-     c_streams := [([65], ex_small); ([87; 111; 114; 107; 98; 111; 111; 107], ex_big)] |}.
+     c_streams := [([65], ex_small); ([87; 111; 114; 107; 98; 111; 111; 107], ex_big)];
+     c_parents := [] |}.
 (* 512-byte sectors, shuffled: FAT in sector 7, directory in 3, mini FAT in 12, mini stream in 0,
    the big stream fragmented over ten sectors in no order, sector 8 free, mini sector 1 free *)
 Definition ex_l : layout :=
   {| l_nsect := 15; l_fat_ids := [7]; l_difat_ids := []; l_dir_ids := [3]; l_minifat_ids := [12];
      l_root_ids := [0]; l_nmini := 3;
      l_chains := [[2; 0]; [14; 2; 9; 1; 13; 4; 11; 5; 10; 6]];
-     l_slots := [2; 3; 1]; l_pad := 170; l_size_hi := 4294967295; l_empty_start := 0 |}.
+     l_slots := [2; 3; 1]; l_pad := 170; l_size_hi := 4294967295; l_empty_start := 0;
+     l_links := [] |}.
 (* 4096-byte sectors, sequential *)
 Definition ex_l4 : layout :=
   {| l_nsect := 6; l_fat_ids := [0]; l_difat_ids := []; l_dir_ids := [1]; l_minifat_ids := [2];
      l_root_ids := [3]; l_nmini := 2;
      l_chains := [[0; 1]; [4; 5]];
-     l_slots := [1; 2; 3]; l_pad := 0; l_size_hi := 0; l_empty_start := ENDOFCHAIN |}.
+     l_slots := [1; 2; 3]; l_pad := 0; l_size_hi := 0; l_empty_start := ENDOFCHAIN;
+     l_links := [(FREESECT, FREESECT, 1); (2, 3, FREESECT);
+                 (FREESECT, FREESECT, FREESECT); (FREESECT, FREESECT, FREESECT)] |}.
 
-Example C13_layout_nonvacuous : valid_layout (ex_c 512) ex_l /\ valid_layout (ex_c 4096) ex_l4.
-Proof. split; vm_compute; reflexivity. Qed.
+Example C13_layout_nonvacuous : valid_layout (ex_c 512) ex_l /\ valid_layout (ex_c 4096) ex_l4 /\
+  names_unique (ex_c 512) /\ legal_treeb (ex_c 4096) ex_l4 = true.
+Proof. repeat split; vm_compute; reflexivity. Qed.
 
 (* through the bytes: the written files are read back by the whole model (header, DIFAT, FAT,
    directory, mini stream), both sector sizes, both kinds of stream *)
@@ -243,11 +309,11 @@ Qed.
 (* a stream whose name begins with U+FEFF, and an empty stream whose start field is 0: both were
    misread before the fixes (BOM sniffing in Directory::from_slice; no truncation for len = 0) *)
 Definition bom_c : container :=
-  {| c_ss := 512; c_storages := []; c_streams := [([65279; 65], ex_small); ([69], [])] |}.
+  {| c_ss := 512; c_storages := []; c_streams := [([65279; 65], ex_small); ([69], [])]; c_parents := [] |}.
 Definition bom_l : layout :=
   {| l_nsect := 4; l_fat_ids := [0]; l_difat_ids := []; l_dir_ids := [1]; l_minifat_ids := [2];
      l_root_ids := [3]; l_nmini := 2; l_chains := [[0; 1]; []]; l_slots := [1; 3]; l_pad := 0;
-     l_size_hi := 0; l_empty_start := 0 |}.
+     l_size_hi := 0; l_empty_start := 0; l_links := [] |}.
 
 Example C13_bom_name_and_empty_start_example :
   valid_layout bom_c bom_l /\
@@ -255,15 +321,115 @@ Example C13_bom_name_and_empty_start_example :
   cfb_get_stream (fuel_for bom_l) (cfb_write bom_c bom_l) [69] = Ok [].
 Proof. repeat split; vm_compute; reflexivity. Qed.
 
+(* ---------------------------------------------------------------- dual-format files, duplicate names *)
+Definition ex_other : list N := map (fun i => (N.of_nat i * 5 + 1) mod 256) (seq 0 100).
+Definition MBD1 : list N := [77; 66; 68; 48; 48; 48; 49].                       (* "MBD0001" *)
+(* a dual-format file: Book (slot 1) BEFORE Workbook (slot 2) in the directory array *)
+Definition dual_c : container :=
+  {| c_ss := 512; c_storages := []; c_streams := [(WORKBOOK, ex_small); (BOOK, ex_other)]; c_parents := [] |}.
+Definition dual_l : layout :=
+  {| l_nsect := 4; l_fat_ids := [0]; l_difat_ids := []; l_dir_ids := [1]; l_minifat_ids := [2];
+     l_root_ids := [3]; l_nmini := 4; l_chains := [[0; 1]; [2; 3]]; l_slots := [2; 1]; l_pad := 0;
+     l_size_hi := 0; l_empty_start := ENDOFCHAIN;
+     l_links := [(FREESECT, FREESECT, 1); (FREESECT, FREESECT, FREESECT); (FREESECT, 2, FREESECT)] |}.
+Definition book_c : container :=
+  {| c_ss := 512; c_storages := []; c_streams := [(BOOK, ex_other)]; c_parents := [] |}.
+Definition book_l : layout :=
+  {| l_nsect := 4; l_fat_ids := [0]; l_difat_ids := []; l_dir_ids := [1]; l_minifat_ids := [2];
+     l_root_ids := [3]; l_nmini := 2; l_chains := [[0; 1]]; l_slots := [3]; l_pad := 0;
+     l_size_hi := 0; l_empty_start := ENDOFCHAIN; l_links := [(FREESECT, FREESECT, 3)] |}.
+
+Example C13_workbook_stream_preferred_nonvacuous :
+  valid_layout dual_c dual_l /\ names_unique dual_c /\ legal_treeb dual_c dual_l = true /\
+  In (WORKBOOK, ex_small) (c_streams dual_c) /\ In (BOOK, ex_other) (c_streams dual_c) /\
+  nth_error (c_streams dual_c) 0 = Some (WORKBOOK, ex_small) /\ stream_slot dual_c dual_l 0 = Some 2 /\
+  stream_slot dual_c dual_l 1 = Some 1 /\ first_slot dual_c dual_l WORKBOOK = Some 2 /\
+  xls_workbook_stream (fuel_for dual_l) (cfb_write dual_c dual_l) = Ok ex_small /\
+  valid_layout book_c book_l /\ names_unique book_c /\ ~ In WORKBOOK (all_names book_c) /\
+  first_slot book_c book_l WORKBOOK = None /\ first_slot book_c book_l BOOK = Some 3 /\
+  xls_workbook_stream (fuel_for book_l) (cfb_write book_c book_l) = Ok ex_other.
+Proof.
+  repeat split; try (vm_compute; reflexivity); try (left; reflexivity); try (right; left; reflexivity).
+  intros [H|[]]. discriminate H.
+Qed.
+
+(* an embedded workbook: storage MBD0001 holds its own Workbook stream (legal: names are unique
+   per storage).  emb_ok: the root's Workbook sits in the lower slot — read correctly;
+   emb_bad: the embedded one sits in the lower slot (the array position is free) — class 2 *)
+Definition emb_c : container :=
+  {| c_ss := 512; c_storages := [MBD1];
+     c_streams := [(WORKBOOK, ex_small); (WORKBOOK, ex_other)]; c_parents := [0; 0; 1] |}.
+Definition emb_l (root_slot emb_slot : N) : layout :=
+  {| l_nsect := 4; l_fat_ids := [0]; l_difat_ids := []; l_dir_ids := [1]; l_minifat_ids := [2];
+     l_root_ids := [3]; l_nmini := 4; l_chains := [[0; 1]; [2; 3]]; l_slots := [1; root_slot; emb_slot];
+     l_pad := 0; l_size_hi := 0; l_empty_start := ENDOFCHAIN;
+     l_links := [(FREESECT, FREESECT, 1); (FREESECT, root_slot, emb_slot);
+                 (FREESECT, FREESECT, FREESECT); (FREESECT, FREESECT, FREESECT)] |}.
+
+Example C13_workbook_stream_known_nonvacuous :
+  valid_layout emb_c (emb_l 2 3) /\ legal_treeb emb_c (emb_l 2 3) = true /\
+  names_uniqueb emb_c = false /\
+  spec_workbook emb_c = Some (0%nat, ex_small) /\ known_C13 emb_c (emb_l 2 3) = None /\
+  stream_slot emb_c (emb_l 2 3) 0 = Some 2 /\ first_slot emb_c (emb_l 2 3) WORKBOOK = Some 2 /\
+  xls_workbook_stream (fuel_for (emb_l 2 3)) (cfb_write emb_c (emb_l 2 3)) = Ok ex_small.
+Proof. repeat split; vm_compute; reflexivity. Qed.
+
+(* KNOWN CLASS 2 (shadowed_workbook), audit item G8: a legal container — same two storages, same
+   streams, the embedded Workbook's entry merely placed in a lower directory slot — is read as
+   the EMBEDDED workbook by Xls::new (confirmed on the real code, see notes/C13.md) *)
+Theorem C13_refuted_shadowed_workbook : exists c l bw bx,
+  valid_layout c l /\ legal_treeb c l = true /\ known_C13 c l = Some 2 /\
+  spec_workbook c = Some (0%nat, bw) /\
+  xls_workbook_stream (fuel_for l) (cfb_write c l) = Ok bx /\ bx <> bw.
+Proof.
+  exists emb_c, (emb_l 3 2), ex_small, ex_other.
+  repeat split; try (vm_compute; reflexivity). vm_compute. discriminate.
+Qed.
+
+(* class 2, second shape: the root storage has only Book (a BIFF5 file) and an embedded object
+   has a Workbook: the first lookup succeeds on the embedded stream, in EVERY directory order *)
+Definition emb5_c : container :=
+  {| c_ss := 512; c_storages := [MBD1];
+     c_streams := [(BOOK, ex_small); (WORKBOOK, ex_other)]; c_parents := [0; 0; 1] |}.
+(* (Book, 4 units, sorts before MBD0001, 7 units: it is the storage's LEFT sibling) *)
+Definition emb5_l (root_slot emb_slot : N) : layout :=
+  {| l_nsect := 4; l_fat_ids := [0]; l_difat_ids := []; l_dir_ids := [1]; l_minifat_ids := [2];
+     l_root_ids := [3]; l_nmini := 4; l_chains := [[0; 1]; [2; 3]]; l_slots := [1; root_slot; emb_slot];
+     l_pad := 0; l_size_hi := 0; l_empty_start := ENDOFCHAIN;
+     l_links := [(FREESECT, FREESECT, 1); (root_slot, FREESECT, emb_slot);
+                 (FREESECT, FREESECT, FREESECT); (FREESECT, FREESECT, FREESECT)] |}.
+Theorem C13_refuted_book_and_embedded_workbook : exists c bw bx,
+  spec_workbook c = Some (0%nat, bw) /\ bx <> bw /\
+  forall l, In l [emb5_l 2 3; emb5_l 3 2] ->
+    valid_layout c l /\ legal_treeb c l = true /\ known_C13 c l = Some 2 /\
+    xls_workbook_stream (fuel_for l) (cfb_write c l) = Ok bx.
+Proof.
+  exists emb5_c, ex_small, ex_other. split; [reflexivity|]. split; [vm_compute; discriminate|].
+  intros l [<-|[<-|[]]]; repeat split; vm_compute; reflexivity.
+Qed.
+
 Check C13_chain_follow : forall fat ss body start ids len s r,
   Chain fat start ids -> NoDup ids -> Inv ss body s r ->
   (forall id, In id ids -> (id + 1) * ss <= lenN body) ->
   exists s' r',
     get_chain s start fat r len
     = Ok (trunc_spec len (concat (map (sector ss body) ids)), s', r') /\ Inv ss body s' r'.
-Check C13_layout_independent : forall c l fuel, valid_layout c l -> (fuel_for l <= fuel)%nat ->
+Check C13_layout_independent : forall c l fuel, valid_layout c l -> names_unique c ->
+  (fuel_for l <= fuel)%nat ->
   forall n b, In (n, b) (c_streams c) -> cfb_get_stream fuel (cfb_write c l) n = Ok b.
-Check C13_layout_independent_partial : forall c l, valid_layout c l ->
+Check C13_layout_independent_first : forall c l fuel, valid_layout c l -> (fuel_for l <= fuel)%nat ->
+  forall k n b s, nth_error (c_streams c) k = Some (n, b) -> stream_slot c l k = Some s ->
+  first_slot c l n = Some s ->
+  cfb_get_stream fuel (cfb_write c l) n = Ok b.
+Check C13_workbook_stream_preferred_unique : forall c l fuel, valid_layout c l -> names_unique c ->
+  (fuel_for l <= fuel)%nat ->
+  (forall bw, In (WORKBOOK, bw) (c_streams c) -> xls_workbook_stream fuel (cfb_write c l) = Ok bw) /\
+  (forall bb, ~ In WORKBOOK (all_names c) -> In (BOOK, bb) (c_streams c) ->
+     xls_workbook_stream fuel (cfb_write c l) = Ok bb).
+Check C13_workbook_stream_known : forall c l fuel k b, valid_layout c l -> (fuel_for l <= fuel)%nat ->
+  spec_workbook c = Some (k, b) -> known_C13 c l = None ->
+  xls_workbook_stream fuel (cfb_write c l) = Ok b.
+Check C13_layout_independent_partial : forall c l, valid_layout c l -> names_unique c ->
   forall n b, In (n, b) (c_streams c) ->
   forall ms r, Inv (c_ss c) (body_bytes c l) ms r ->
   exists c' r', get_stream (parsed_cfb c l ms) n r = Ok (b, c', r').
@@ -297,3 +463,12 @@ Print Assumptions C13_chain_follow_nonvacuous.
 Print Assumptions C13_chain_cycle_nonvacuous.
 Print Assumptions C13_bom_name_and_empty_start_example.
 Print Assumptions C13_empty_stream.
+Print Assumptions C13_find_dir_first.
+Print Assumptions C13_layout_independent_first.
+Print Assumptions C13_workbook_stream_preferred.
+Print Assumptions C13_workbook_stream_preferred_unique.
+Print Assumptions C13_workbook_stream_known.
+Print Assumptions C13_workbook_stream_preferred_nonvacuous.
+Print Assumptions C13_workbook_stream_known_nonvacuous.
+Print Assumptions C13_refuted_shadowed_workbook.
+Print Assumptions C13_refuted_book_and_embedded_workbook.
